@@ -180,6 +180,8 @@ impl EventLoops {
     /// Waiting for a read event to occur.
     /// This method can only be used in coroutines.
     pub fn wait_read_event(fd: c_int, timeout: Option<Duration>) -> std::io::Result<()> {
+        #[cfg(open_coroutine_verif)]
+        crate::common::verif::emit(|| format!(r#""ev":"fd_wait","fd":{fd},"kind":"r""#));
         let event_loop = Self::event_loop();
         event_loop.add_read_event(fd)?;
         event_loop.wait_just(timeout)
@@ -188,6 +190,8 @@ impl EventLoops {
     /// Waiting for a write event to occur.
     /// This method can only be used in coroutines.
     pub fn wait_write_event(fd: c_int, timeout: Option<Duration>) -> std::io::Result<()> {
+        #[cfg(open_coroutine_verif)]
+        crate::common::verif::emit(|| format!(r#""ev":"fd_wait","fd":{fd},"kind":"w""#));
         let event_loop = Self::event_loop();
         event_loop.add_write_event(fd)?;
         event_loop.wait_just(timeout)
